@@ -77,6 +77,37 @@ fn web_find_trailers_12() {
     find_trailers_case::<12>()
 }
 #[kani::proof]
+#[kani::unwind(4)]
+#[kani::stub(alloc::fmt::format, fmt_stub)]
+fn web_find_trailers_7() {
+    find_trailers_case::<7>()
+}
+
+// the trailers frame is complete iff 5 + BE32 length bytes are buffered (used by the client loop to wait for all of it)
+#[kani::proof]
+#[kani::unwind(4)]
+#[kani::stub(alloc::fmt::format, fmt_stub)]
+fn web_trailers_frame_len_10() {
+    let raw: [u8; 10] = kani::any();
+    let len: usize = kani::any();
+    kani::assume(len <= 10);
+    let got = trailers_frame_len(&raw[..len]);
+    let want = match ref_frame_header(&raw[..len]) {
+        Some((_flag, l)) => {
+            if 5 + l <= len {
+                Some(5 + l)
+            } else {
+                None
+            }
+        }
+        None => None,
+    };
+    assert!(got == want, "C17: completeness of the trailers frame judged wrongly (trailers would be parsed before all of them arrived, or never)");
+    kani::cover!(got.is_some(), "complete frame");
+    kani::cover!(len >= 5 && got.is_none(), "incomplete frame");
+}
+
+#[kani::proof]
 #[kani::unwind(6)]
 #[kani::stub(alloc::fmt::format, fmt_stub)]
 fn web_find_trailers_17() {
